@@ -394,11 +394,11 @@ def loc_line(loc):
 
 def run_parallel(h, cases, workers=16):
     if len(cases) <= 8:
-        return h.run(cases)
+        return h.run(cases, timeout=3600)
     chunk = max(4, (len(cases) + workers * 4 - 1) // (workers * 4))
     parts = [cases[i:i + chunk] for i in range(0, len(cases), chunk)]
     with concurrent.futures.ThreadPoolExecutor(max_workers=workers) as ex:
-        outs = list(ex.map(h.run, parts))
+        outs = list(ex.map(lambda p: h.run(p, timeout=14400), parts))
     return [x for o in outs for x in o]
 
 
@@ -579,7 +579,7 @@ def run(ctx):
     proof = ctx.coq(["Owner/Props_C23.v"])
     h = Harness(ctx, "owner", env=ctx.erg_env())
     model = ctx.model("Owner")
-    cases = corpus_cases() + systematic_cases(ctx.rng, ctx.scale(150, None)) + gen_cases(ctx, ctx.scale(450, 6000))
+    cases = corpus_cases() + systematic_cases(ctx.rng, ctx.scale(150, None)) + gen_cases(ctx, ctx.scale(450, 4000))
     if ctx.thorough:
         ctx.cov["exhaustive_small_scope"] = ("every moving statement (%d) and every non-moving statement (%d) followed by every kind of "
                                              "use (%d) in every scope arrangement (%d)" % (len(MOVES), len(NONMOVES), len(USES), len(WRAPS)))
